@@ -419,13 +419,50 @@ func calleeName(cc *ssa.CallCommon) string {
 	return ""
 }
 
-// funcInstrs iterates over all instructions of fn.
+// funcInstrs iterates over all instructions of fn that are reachable from
+// its entry by normal control flow (the builder's recover block and dead
+// blocks are skipped).
 func funcInstrs(fn *ssa.Function, f func(ssa.Instruction)) {
+	if fn == nil || len(fn.Blocks) == 0 {
+		return
+	}
+	reach := reachableBlocks(fn)
 	for _, b := range fn.Blocks {
+		if !reach[b] {
+			continue
+		}
 		for _, in := range b.Instrs {
 			f(in)
 		}
 	}
+}
+
+// retVal returns the value actually returned at result index i: functions
+// with defers spill results to a cell (*t0 = v; rundefers; return *t0).
+func retVal(rt *ssa.Return, i int) ssa.Value {
+	v := rt.Results[i]
+	u, ok := v.(*ssa.UnOp)
+	if !ok || u.Op != token.MUL {
+		return v
+	}
+	al, ok := u.X.(*ssa.Alloc)
+	if !ok {
+		return v
+	}
+	b := rt.Block()
+	var last ssa.Value
+	for _, in := range b.Instrs {
+		if in == ssa.Instruction(u) {
+			break
+		}
+		if st, ok := in.(*ssa.Store); ok && st.Addr == al {
+			last = st.Val
+		}
+	}
+	if last != nil {
+		return last
+	}
+	return v
 }
 
 // reachableBlocks: blocks reachable from entry (go/ssa may keep dead ones).
